@@ -193,6 +193,29 @@ def mayRaiseA (allowed : RaiseSet) : Stmt → RaiseSet
   | .brk => .empty
   | .cont => .empty
 
+/-- the same analysis when each call site has its own set of classes it may raise (`at site`): e.g. "only the
+    plugin callbacks fail, and only with an `Exception`" -/
+def mayRaiseF (at_ : String → RaiseSet) : Stmt → RaiseSet
+  | .call s => at_ s
+  | .pure => .empty
+  | .assign _ _ => .empty
+  | .seq a b => (mayRaiseF at_ a).union (mayRaiseF at_ b)
+  | .branch _ a b => (mayRaiseF at_ a).union (mayRaiseF at_ b)
+  | .loop _ b => mayRaiseF at_ b
+  | .tryExcept b c _ h =>
+    let rb := mayRaiseF at_ b
+    ((uncaught c .exc rb.exc).union (uncaught c .base rb.base)).union (mayRaiseF at_ h)
+  | .tryFinally b f => (mayRaiseF at_ b).union (mayRaiseF at_ f)
+  | .scope _ b => mayRaiseF at_ b
+  | .ret _ => .empty
+  | .raise e => RaiseSet.single e
+  | .brk => .empty
+  | .cont => .empty
+
+/-- the faults of `env` respect the per-site sets -/
+def FaultsAt (at_ : String → RaiseSet) (env : Env) : Prop :=
+  ∀ tr site e, env.fault tr site = some e → (at_ site).mem e = true
+
 def mayRaise (s : Stmt) : RaiseSet := mayRaiseA .all s
 
 def AllGuarded (s : Stmt) : Prop := mayRaise s = RaiseSet.empty
